@@ -541,6 +541,22 @@ func runSerialExtra(raw json.RawMessage, seed int64) (res Result) {
 				tails = append(tails, tl)
 			}
 		}
+		// tails that vanish under a fold of the bytes (sum modulo 256, xor, sum of 16-bit or 64-bit words): pairs and triples
+		// of non-zero bytes at several distances
+		for _, grp := range [][]byte{{0xff, 0x01}, {0x01, 0xff}, {0x7f, 0x81}, {0x40, 0x40, 0x80}, {0xaa, 0xaa}, {0x80, 0x80}, {0x10, 0xf0}} {
+			for _, dist := range []int{1, 2, 8, 16, size/2 - 1} {
+				for _, first := range []int{0, 7, size - 2 - dist*(len(grp)-1)} {
+					if first < 0 || first+dist*(len(grp)-1) >= size-1 {
+						continue
+					}
+					t := make([]byte, size-1)
+					for k, v := range grp {
+						t[first+k*dist] = v
+					}
+					tails = append(tails, t)
+				}
+			}
+		}
 		for _, t := range tails {
 			b := append([]byte{0xC0}, t...)
 			res.Evals++
